@@ -218,13 +218,26 @@ func checkC04(c *Ctx) {
 				c.check(errNil && valid, "R4", key+" (true)", ret, "err == nil: %v, verdict true: %v", errNil, valid)
 				continue
 			}
-			// every path to this return passes claim==false or a demotion
+			// every path to this return passes claim==false or a demotion - of whatever term is
+			// current: a demotion bound to a term captured earlier in the call does nothing when
+			// the instance was re-elected in between, and the call then returns false while the
+			// instance reports leadership
+			demotes := func(call *ssa.Call) bool {
+				g := call.Call.StaticCallee()
+				if g == nil || !m.isLib(g) || !m.mayDemote(g, specFor(call, g), 0) {
+					return false
+				}
+				if k := m.termBound(g, 0); k >= 0 && k < len(call.Call.Args) {
+					if kc, isC := call.Call.Args[k].(*ssa.Const); !isC || kc.Value != nil {
+						return false // bound to one term
+					}
+				}
+				return true
+			}
 			inBlock := false
 			for _, in := range b.Instrs {
-				if call, ok := in.(*ssa.Call); ok {
-					if g := call.Call.StaticCallee(); g != nil && m.isLib(g) && m.mayDemote(g, specFor(call, g), 0) {
-						inBlock = true
-					}
+				if call, ok := in.(*ssa.Call); ok && demotes(call) {
+					inBlock = true
 				}
 			}
 			reach := !inBlock && cutReachBlocks(b, func(pred *ssa.BasicBlock, i int) bool {
@@ -232,15 +245,13 @@ func checkC04(c *Ctx) {
 					return true
 				}
 				for _, in := range pred.Instrs {
-					if call, ok := in.(*ssa.Call); ok {
-						if g := call.Call.StaticCallee(); g != nil && m.isLib(g) && m.mayDemote(g, specFor(call, g), 0) {
-							return true
-						}
+					if call, ok := in.(*ssa.Call); ok && demotes(call) {
+						return true
 					}
 				}
 				return false
 			})
-			c.check(!reach, "R4", key+" (false)", ret, "`return false` reachable without passing claim==false or a demotion: %v", reach)
+			c.check(!reach, "R4", key+" (false)", ret, "`return false` reachable without passing claim==false or a demotion of the current term (a demotion bound to a term captured before the read does not count): %v", reach)
 		}
 	} else {
 		c.undecided("R4", "ValidateTokenOrDemote", nil, "API method not found")
